@@ -16,7 +16,7 @@ import numpy as np
 from vk.specs import tree as T
 from vk.specs import treeuniv as TU
 from vk.symx import shims as SH
-from vk.symx.harness import decide, decide_true
+from vk.symx.harness import decide, decide_true, native_pass
 from vk.symx.poly import Poly, VarFactory
 from props.C09_tdvp_sym import conj_arr, unit_vec, _obj, is_zero
 
@@ -182,6 +182,8 @@ def clauses(rec, sched, template, Hd, va, result, coeff, tau, order, sym):
             complete = False
             break
         ref = cj(J).T.dot(Hd.dot(J))
+        if not sym:
+            yield ("frames_are_orthonormal", ctag, cj(J).T.dot(J), np.eye(J.shape[1]) * abs(c["snap"]["coeff"]) ** 2, None)
         want_t = complex(coeff) * tau / 2 * (1 if kind.startswith("F") else -1)
         yield ("generator_times_time_is_the_projected_hamiltonian_step", ctag, mul(c["A"], c["t"]), mul(ref, want_t), None)
         yield ("posed_in_the_state_the_previous_problem_produced", ctag, J.dot(c["v"]), prev_after, None)
@@ -196,8 +198,9 @@ def native_replay(a0c, H, Hn, coeff, tau, two_site, order):
         from renormalizer.utils import CompressConfig, CompressCriteria
         x = a0c.copy()
         x.compress_config = CompressConfig(CompressCriteria.fixed, max_bonddim=10 ** 4)
+        x.canonicalise()          # the schemes expect (and assert) a state that is canonical at the root
         rec = TreeRecorder(None, x, real_kernel=te.expm_krylov)
-        va = T.dense_ttns(a0c, order)
+        va = T.dense_ttns(x, order)
         try:
             r = execute(x, H, coeff, tau, two_site, rec)
         except Exception as e:
@@ -285,6 +288,7 @@ def _worker(case, led):
                     decide(led, oid, method, lhs, rhs, cs, fields={"method": method}, numeric_replay=replay)
             bad = T.qnv_tree_violations(r)
             decide_true(led, f"post:{method}:qn_valid[{tag}]", method, not bad, f"labels of the result invalid: {bad[:2]}", cs)
+        native_pass(led, f"rtc:{method}:local_problems_with_the_real_kernels_incl_orthonormal_frames", method, replay, (tag,), cs)
     led.extra["ncalls"] = ncalls
 
 
